@@ -86,7 +86,7 @@ def run(ctx):
     # ---------------------------------------------------------------- (c') volume runs
     # many travelers in flight (more than the 50-slot queue channels hold): rows only, compared with the
     # iterative definition the specification prints for the configuration (no trace validation at this size)
-    vol_cfgs = [C(150, 3), C(40, 3, Fan=2), C(60, 2, NJ=2)] if quick else [C(150, 3), C(400, 4), C(40, 3, Fan=2), C(120, 3, Fan=2), C(60, 2, NJ=2), C(100, 3, NF=1, FT=50)]
+    vol_cfgs = [C(150, 3), C(40, 3, Fan=2), C(60, 2, NJ=2)] if quick else [C(150, 3), C(160, 4), C(200, 3), C(40, 3, Fan=2), C(120, 3, Fan=2), C(60, 2, NJ=2), C(100, 3, NF=1, FT=50)]
     vreqs = []
     for ci, c in enumerate(vol_cfgs):
         for p in ([2, 16] if quick else [1, 2, 4, 16]):
